@@ -30,7 +30,7 @@ def weight_of(chain, input_expr=""):
     return w
 
 
-def build(pid, macro, ctx, input_expr, chain, final_t, second_branch=False, group="", extra_desc=None, heavy=False, unwind=12):
+def build(pid, macro, ctx, input_expr, chain, final_t, second_branch=False, group="", extra_desc=None, heavy=False, unwind=12, tok=False, prop="C01"):
     """program comparing macro and reference on the same symbolic input"""
     is_async, is_try, is_spawn = KINDS[macro]
     cmpf = finish(final_t)
@@ -47,7 +47,7 @@ def build(pid, macro, ctx, input_expr, chain, final_t, second_branch=False, grou
     L.append("let m = %s;" % text)
     if ids:
         L.append("let tm = (%s, trace(), ncalls());" % trace_vars(ids))
-    L.append("reset();")
+    L.append("reset_calls();")
     L.append("let r = %s;" % ref)
     if ids:
         L.append("let tr = (%s, trace(), ncalls());" % trace_vars(ids))
@@ -64,7 +64,14 @@ def build(pid, macro, ctx, input_expr, chain, final_t, second_branch=False, grou
         L.append("vassert!(%s, \"C01[%s]: macro value == documented method chain\");" % (cmpf("m", "r"), pid))
     if ids:
         L.append("vassert!(tm == tr, \"C01[%s]: callbacks are invoked with the same arguments, equally often and in the same order as by the method chain\");" % pid)
+    if tok:
+        # move-only payloads: everything created (by both sides) must have been dropped exactly once when the values go out of scope
+        L = [L[0]] + ["{"] + ["    " + l for l in L[1:]] + ["}",
+             "vassert!(tok_balance(), \"C10[%s]: every move-only value is dropped exactly once (created == dropped, value sums equal)\");" % pid,
+             "vcover!(created() > 0, \"tokens were created\");"]
     L.append("vcover!(true, \"end reached\");")
+    if prop != "C01":
+        L = [l.replace("C01[", prop + "[") for l in L]
     desc = dict(macro=macro, operators=[("~" if s.deferred else "") + s.op + (" >>>" if s.inner is not None else "") for s in chain], final_type=str(final_t), reference=ref)
     if extra_desc:
         desc.update(extra_desc)
